@@ -559,6 +559,33 @@ impl Session {
         Ok(None)
     }
 
+    /// Release the transfers that were waiting for the remote-incoming-window, as far as the
+    /// (just updated) window allows, behind an optional frame that has to go out first.
+    pub(crate) fn release_buffered_transfers(
+        &mut self,
+        first: Option<SessionFrame>,
+    ) -> Result<Option<SessionOutgoingItem>, SessionInnerError> {
+        // Process buffered outgoing transfer frames if the updated remote-incoming-window is
+        // greater than 0
+        if self.remote_incoming_window > 0
+            && !self.remote_incoming_window_exhausted_buffer.is_empty()
+        {
+            let mut output_frame_buffer = Vec::with_capacity(
+                self.remote_incoming_window_exhausted_buffer
+                    .len()
+                    .saturating_add(1),
+            );
+            if let Some(first) = first {
+                output_frame_buffer.push(first);
+            }
+            let frames =
+                self.prepare_session_frames_from_buffered_transfers(output_frame_buffer)?;
+            Ok(Some(SessionOutgoingItem::MultipleFrames(frames)))
+        } else {
+            Ok(first.map(SessionOutgoingItem::SingleFrame))
+        }
+    }
+
     fn prepare_session_frames_from_buffered_transfers(
         &mut self,
         mut output_frame_buffer: Vec<SessionFrame>,
@@ -772,25 +799,7 @@ impl endpoint::Session for Session {
             .map(|flow| self.on_outgoing_flow(flow))
             .transpose()?;
 
-        // Process buffered outgoing transfer frames if the updated remote-incoming-window is
-        // greater than 0
-        if self.remote_incoming_window > 0
-            && !self.remote_incoming_window_exhausted_buffer.is_empty()
-        {
-            let mut output_frame_buffer = Vec::with_capacity(
-                self.remote_incoming_window_exhausted_buffer
-                    .len()
-                    .saturating_add(1),
-            );
-            if let Some(outgoing_session_flow) = outgoing_session_flow {
-                output_frame_buffer.push(outgoing_session_flow);
-            }
-            let frames =
-                self.prepare_session_frames_from_buffered_transfers(output_frame_buffer)?;
-            Ok(Some(SessionOutgoingItem::MultipleFrames(frames)))
-        } else {
-            Ok(outgoing_session_flow.map(SessionOutgoingItem::SingleFrame))
-        }
+        self.release_buffered_transfers(outgoing_session_flow)
     }
 
     /// Handle an incoming transfer.
